@@ -70,6 +70,12 @@ pub enum OpKind {
     /// SET k v PX 600000: a deadline that never arrives during a history - but the key now *has* one, so the
     /// expiry machinery (lazy checks, the TTL sweep running beside the clients) looks at it
     SetPxLong(Vec<u8>),
+    /// GETDEL: read and remove in one step
+    GetDel,
+    /// LRANGE k 0 -1: the whole list as it is at one instant
+    LRangeAll,
+    /// RPUSH k e0 .. e(n-1) by the preliminary client: a list long enough that nothing reads it in one small piece
+    RPushMany(u32),
 }
 
 #[derive(Clone, Debug, PartialEq, Eq, Hash)]
@@ -123,7 +129,7 @@ pub fn apply_nd(st: &KeyState, op: &OpKind) -> Vec<(KeyState, Tree)> {
             let (ns, r) = apply(&KeyState::Str(s.clone()), op);
             let mut outs = vec![];
             match (&ns, op) {
-                (KeyState::Str(x), OpKind::Get | OpKind::EvalGlobalGet | OpKind::MGetElem | OpKind::Append(_) | OpKind::Incr | OpKind::SetNx(_) | OpKind::SetOptNx(_) | OpKind::LPush(_) | OpKind::LPop | OpKind::LLen) => outs.push((KeyState::Vol(x.clone()), r)),
+                (KeyState::Str(x), OpKind::Get | OpKind::EvalGlobalGet | OpKind::MGetElem | OpKind::Append(_) | OpKind::Incr | OpKind::SetNx(_) | OpKind::SetOptNx(_) | OpKind::LPush(_) | OpKind::LPop | OpKind::LLen | OpKind::LRangeAll | OpKind::RPushMany(_)) => outs.push((KeyState::Vol(x.clone()), r)),
                 (KeyState::Str(x), OpKind::GetSet(_) | OpKind::EvalSwap(_)) => {
                     outs.push((KeyState::Vol(x.clone()), r.clone()));
                     outs.push((ns.clone(), r));
@@ -182,6 +188,20 @@ pub fn apply(st: &KeyState, op: &OpKind) -> (KeyState, Tree) {
             (KeyState::Str(n), Tree::Int(l))
         }
         (OpKind::Append(_), KeyState::List(_)) => (st.clone(), wrongtype()),
+        (OpKind::GetDel, KeyState::Nil) => (KeyState::Nil, Tree::Bulk(None)),
+        (OpKind::GetDel, KeyState::Str(s)) => (KeyState::Nil, bulk(s)),
+        (OpKind::GetDel, KeyState::List(_)) => (st.clone(), wrongtype()),
+        (OpKind::LRangeAll, KeyState::Nil) => (KeyState::Nil, Tree::Arr(Some(vec![]))),
+        (OpKind::LRangeAll, KeyState::List(l)) => (st.clone(), Tree::Arr(Some(l.iter().map(|x| Tree::Bulk(Some(x.clone()))).collect()))),
+        (OpKind::LRangeAll, KeyState::Str(_)) => (st.clone(), wrongtype()),
+        (OpKind::RPushMany(n), KeyState::Nil) => (KeyState::List((0..*n).map(|i| format!("pre{:04}", i).into_bytes()).collect()), Tree::Int(*n as i64)),
+        (OpKind::RPushMany(n), KeyState::List(l)) => {
+            let mut m = l.clone();
+            m.extend((0..*n).map(|i| format!("pre{:04}", i).into_bytes()));
+            let len = m.len() as i64;
+            (KeyState::List(m), Tree::Int(len))
+        }
+        (OpKind::RPushMany(_), KeyState::Str(_)) => (st.clone(), wrongtype()),
         (OpKind::LPush(v), KeyState::Nil) => (KeyState::List(VecDeque::from(vec![v.clone()])), Tree::Int(1)),
         (OpKind::LPush(v), KeyState::List(l)) => {
             let mut n = l.clone();
@@ -311,6 +331,12 @@ fn parse_opkind(s: &str) -> OpKind {
         OpKind::SetOptGet(arg(s))
     } else if s.starts_with("GetSet") {
         OpKind::GetSet(arg(s))
+    } else if s.starts_with("GetDel") {
+        OpKind::GetDel
+    } else if s.starts_with("LRangeAll") {
+        OpKind::LRangeAll
+    } else if s.starts_with("RPushMany") {
+        OpKind::RPushMany(s.trim_start_matches("RPushMany(").trim_end_matches(')').parse().unwrap_or(0))
     } else if s.starts_with("Get") {
         OpKind::Get
     } else if s.starts_with("SetNx") {
@@ -387,6 +413,9 @@ async fn do_op(st: &ShardedActorState, key: &str, op: &OpKind, via: &Via, sha: O
                 OpKind::LPush(v) => Command::LPush(k, vec![SDS::new(v.clone())]),
                 OpKind::LPop => Command::LPop(k),
                 OpKind::LLen => Command::LLen(k),
+                OpKind::GetDel => Command::GetDel(k),
+                OpKind::LRangeAll => Command::LRange(k, 0, -1),
+                OpKind::RPushMany(n) => Command::RPush(k, (0..*n).map(|i| SDS::new(format!("pre{:04}", i).into_bytes())).collect()),
                 // half of the script invocations go through EVALSHA (the script was loaded when the history began)
                 OpKind::EvalSwap(v) if sha.is_some() && v.len() % 2 == 0 => Command::EvalSha { sha1: sha.unwrap().to_string(), keys: vec![k], args: vec![SDS::new(v.clone())] },
                 OpKind::EvalSwap(v) => Command::Eval { script: SWAP_SCRIPT.to_string(), keys: vec![k], args: vec![SDS::new(v.clone())] },
@@ -436,6 +465,8 @@ struct HistCfg {
 }
 
 static TTL_HEAVY: std::sync::atomic::AtomicBool = std::sync::atomic::AtomicBool::new(false);
+/// list keys start with 1100-1500 elements (every seventh history): nothing may read such a list in pieces
+static LONG_LISTS: std::sync::atomic::AtomicBool = std::sync::atomic::AtomicBool::new(false);
 
 fn gen_op(rng: &mut Rng, client: usize, ctr: &mut u32, key: usize, lua: bool) -> (OpKind, Via) {
     *ctr += 1;
@@ -451,8 +482,10 @@ fn gen_op(rng: &mut Rng, client: usize, ctr: &mut u32, key: usize, lua: bool) ->
             0..=3 => (OpKind::LPush(uniq), Via::Generic),
             4..=6 => (OpKind::LPop, Via::Generic),
             7 => (OpKind::LLen, Via::Generic),
-            8 => (OpKind::Del, Via::Generic),
-            _ => (OpKind::Get, via),
+            8 if !LONG_LISTS.load(Ordering::Relaxed) => (OpKind::Del, Via::Generic),
+            8 => (OpKind::LRangeAll, Via::Generic),
+            _ if LONG_LISTS.load(Ordering::Relaxed) => (OpKind::LRangeAll, Via::Generic),
+            _ => (if rng.gen_bool(0.5) { OpKind::LRangeAll } else { OpKind::Get }, via),
         }
     } else {
         match rng.gen_range(0..27) {
@@ -471,6 +504,7 @@ fn gen_op(rng: &mut Rng, client: usize, ctr: &mut u32, key: usize, lua: bool) ->
             16 if lua => (OpKind::EvalSwap(uniq), Via::Generic),
             18 if lua => (OpKind::EvalGlobalGet, Via::Generic),
             17 => (OpKind::LPush(uniq), Via::Generic),
+            19 => (OpKind::GetDel, Via::Generic),
             _ => (OpKind::Get, Via::Generic),
         }
     }
@@ -572,6 +606,16 @@ async fn run_history(cfg: &HistCfg, seed: u64) -> (Vec<Rec>, Vec<Rec>) {
             log.lock().unwrap().push(Rec { client: 99, key: k, op: OpKind::SetPxShort(v), via: Via::Generic, call, ret: Some((ret, r)) });
         }
         std::thread::sleep(std::time::Duration::from_micros(3200));
+    }
+    LONG_LISTS.store(seed % 7 == 3, Ordering::Relaxed);
+    if seed % 7 == 3 {
+        for k in (0..cfg.keys).filter(|k| k % 3 == 2) {
+            let op = OpKind::RPushMany(1100 + (seed % 400) as u32);
+            let call = stamp();
+            let r = do_op(&st, &key_name(k), &op, &Via::Generic, None).await;
+            let ret = stamp();
+            log.lock().unwrap().push(Rec { client: 98, key: k, op, via: Via::Generic, call, ret: Some((ret, r)) });
+        }
     }
     TTL_HEAVY.store(seed % 2 == 0, Ordering::Relaxed);
     let sweeper = if seed % 2 == 0 {
@@ -721,13 +765,18 @@ fn judge_opt(rep: &mut Report, hist: &[Rec], cfg_json: &Value, pid: &str, po: bo
     }
     // every value read must have been written to that key (unique values make this immediate)
     for (k, ops) in &by_key {
-        let written: HashSet<Vec<u8>> = ops
+        let mut written: HashSet<Vec<u8>> = ops
             .iter()
             .filter_map(|o| match &o.op {
                 OpKind::Set(v) | OpKind::GetSet(v) | OpKind::SetNx(v) | OpKind::LPush(v) | OpKind::EvalSwap(v) | OpKind::SetOptNx(v) | OpKind::SetOptXx(v) | OpKind::SetOptGet(v) => Some(v.clone()),
                 _ => None,
             })
             .collect();
+        for o in ops {
+            if let OpKind::RPushMany(n) = &o.op {
+                written.extend((0..*n).map(|i| format!("pre{:04}", i).into_bytes()));
+            }
+        }
         for o in ops {
             if let (OpKind::LPop, Some((_, Tree::Bulk(Some(v))))) = (&o.op, &o.ret) {
                 if !written.contains(v) {
@@ -915,6 +964,14 @@ fn conn_frame(k: &[u8], op: &OpKind) -> Vec<u8> {
         OpKind::LPush(v) => myresp::frame(&[b"LPUSH", k, v]),
         OpKind::LPop => myresp::frame(&[b"LPOP", k]),
         OpKind::LLen => myresp::frame(&[b"LLEN", k]),
+        OpKind::GetDel => myresp::frame(&[b"GETDEL", k]),
+        OpKind::LRangeAll => myresp::frame(&[b"LRANGE", k, b"0", b"-1"]),
+        OpKind::RPushMany(n) => {
+            let els: Vec<Vec<u8>> = (0..*n).map(|i| format!("pre{:04}", i).into_bytes()).collect();
+            let mut parts: Vec<&[u8]> = vec![b"RPUSH", k];
+            parts.extend(els.iter().map(|e| &e[..]));
+            myresp::frame(&parts)
+        }
         OpKind::EvalSwap(v) => myresp::frame(&[b"EVAL", SWAP_SCRIPT.as_bytes(), b"1", k, v]),
         OpKind::MGetElem => myresp::frame(&[b"MGET", k]),
         OpKind::EvalGlobalGet => myresp::frame(&[b"EVAL", GLOBAL_GET_SCRIPT.as_bytes(), b"1", k]),
